@@ -16,7 +16,10 @@ LEVEL_TEXT = ('static analysis by finite-domain abstract interpretation of call.
               'table whose chromosomes are interleaved; (D6) the stated sample sex always wins over the inferred one in verify_sample_sex (C15 '
               'rule); (D5) sex / PAR / ploidy / purity flags reach same-role parameters at every call site. The call tables also come without any'
               ' X row and with Y rows only (chr-named), and a `.loc` store keyed by the labels of masked rows (index[mask]) on a table whose '
-              'labels may repeat is a violation. Exact over the rationals; IEEE rounding error is not modelled.')
+              'labels may repeat is a violation. (CLI) the `call` command line(s), through a model of argparse built from the declarations in '
+              'commands.py and the real _cmd_ body interpreted with readers, library step and writers stubbed: method, ploidy, purity, reference '
+              'sex, stated sample sex (verified only when purity < 1), PAR genome, filters and thresholds reach do_call as given, defaults '
+              'included. Exact over the rationals; IEEE rounding error is not modelled.')
 TECHNIQUE = "abstract interpretation over finite row-class / flag domains with exact rational terms and intervals; role-flow lint"
 
 GETDF = "cnvlib.call.get_as_dframe_and_set_reference_and_expect_copies"
@@ -236,6 +239,9 @@ def run(chk):
 
 _C = "cnvlib/call.py"
 MUTANTS = [
+    dict(name="cli: call passes the reference flag as the sample sex", file="cnvlib/commands.py", old="        args.male_reference,\n        is_sample_female,\n        args.diploid_parx_genome,\n        args.filters,\n        args.thresholds,", new="        args.male_reference,\n        args.male_reference,\n        args.diploid_parx_genome,\n        args.filters,\n        args.thresholds,"),
+    dict(name="cli: call --purity declared as int", file="cnvlib/commands.py", old='P_call.add_argument(\n    "--purity",\n    type=float,', new='P_call.add_argument(\n    "--purity",\n    type=int,'),
+    dict(name="twin: call passes ploidy and purity by keyword", expect="silent", file="cnvlib/commands.py", old="        args.method,\n        args.ploidy,\n        args.purity,\n        args.male_reference,\n        is_sample_female,\n        args.diploid_parx_genome,\n        args.filters,\n        args.thresholds,\n    )", new="        args.method,\n        ploidy=args.ploidy,\n        purity=args.purity,\n        is_haploid_x_reference=args.male_reference,\n        is_sample_female=is_sample_female,\n        diploid_parx_genome=args.diploid_parx_genome,\n        filters=args.filters,\n        thresholds=args.thresholds,\n    )"),
     dict(name="twin: absolute_pure as a comprehension", expect="silent", file="cnvlib/call.py", old="""    absolutes = np.zeros(len(cnarr), dtype=np.float64)
     for i, row in enumerate(cnarr):
         ref_copies = _reference_copies_pure(row.chromosome, ploidy, is_haploid_x_reference)
